@@ -341,10 +341,25 @@ def violations (g : Graph) (r : Req) (rt : Route) (cached : Bool := false)
 def showHops (hs : List Hop) : String :=
   " ".intercalate (hs.map fun h => s!"[{h.chan}>{h.to} {h.amt}@{h.tl}]")
 
+/-- What the graph cache holds after policy re-announcements without an inbound-fee record
+    (`GraphCache.UpdatePolicy` overwrites the cached inbound fee only when the new policy
+    carries one): the old inbound fee stays. Used for the CORRESPONDENCE part of graph-cache
+    cases only; the monitor always uses the current policies. -/
+def applyStaleInbound (g : Graph) (dropped : List (Nat × Nat × Int × Int)) : Graph :=
+  dropped.foldl (fun g d =>
+    g.map fun c =>
+      if c.id != d.1 then c else
+      let fix (p : Option Policy) : Option Policy :=
+        p.map fun q => { q with inBase := d.2.2.1, inRate := d.2.2.2 }
+      if c.n1 == d.2.1 then { c with p1 := fix c.p1 }
+      else if c.n2 == d.2.1 then { c with p2 := fix c.p2 } else c) g
+
 def endCase (s : St) : IO St := do
   let mut s := s
   let r := s.req
-  let g := s.graph
+  let gTrue := s.graph
+  -- model of what the implementation searches on (graph cache with stale inbound fees)
+  let g := if s.kind == "dbc" then applyStaleInbound gTrue s.dropped else gTrue
   if s.badParse then
     s ← mismatch s "unparsed case"
     return s
@@ -487,8 +502,8 @@ def endCase (s : St) : IO St := do
     s := { s with cltvTight := s.cltvTight + 1 }
   -- (S) the property monitor: always, in exact arithmetic
   s := { s with monitored := s.monitored + 1 }
-  if !routeOK g r rt then
-    let vs := violations g r rt (s.kind == "dbc") s.dropped
+  if !routeOK gTrue r rt then
+    let vs := violations gTrue r rt (s.kind == "dbc") s.dropped
     let vs := if vs.isEmpty then [("unknown", "")] else vs
     for (cl, det) in vs do
       if cl == "fee+overflow" then s := { s with wrapSkipped := s.wrapSkipped + 1 }
